@@ -11,6 +11,7 @@ GROUPS = [
     ("mapping", r"^combinator::(Map|MapWith|To|Ignored|ToSlice|ToSpan|Filter|TryMap|TryMapWith|Unwrapped|Validate)\[Parser\]", ["C01", "C04"]),
     ("forwarding", r"^(&T|std::boxed::Box|std::rc::Rc|std::sync::Arc|Boxed|either::Either)\[(Parser|ConfigParser)\]", ["C01", "C13"]),
     ("repetition", r"^combinator::(Repeated|SeparatedBy|Collect|CollectExactly|Enumerate|Foldl|FoldlWith|Foldr|FoldrWith|IntoIter)\[|^combinator::(Then|OrNot|Map|MapWith)\[IterParser\]", ["C02"]),
+    ("nightly", r"^combinator::(Flatten|MapGroup)\[|^!\[Parser\]", ["C02"]),
     ("configure", r"^combinator::(Configure|IterConfigure|TryIterConfigure)\[|^primitive::Just\[ConfigParser\]|^combinator::Repeated\[ConfigIterParser\]", ["C15", "C02"]),
     ("context", r"^combinator::(IgnoreWithCtx|ThenWithCtx|WithCtx)\[|^primitive::MapCtx\[", ["C15"]),
     ("state", r"^combinator::WithState\[", ["C18"]),
